@@ -81,6 +81,15 @@ impl<'a> IndexBuilder<'a> {
                 }
                 .into());
             }
+            if k.as_bytes().contains(&0) {
+                // byte 0 is the terminator inside the double array, the trie builder can not store it
+                return Err(DicBuildError {
+                    file: format!("<trie: entry {:?} contains a NUL character>", k),
+                    line: 0,
+                    cause: BuildFailure::TrieBuildFailure,
+                }
+                .into());
+            }
             trie_entries.push((k, v.offset as u32));
         }
         self.data.shrink_to_fit();
